@@ -21,6 +21,8 @@ KEYS = {
     "M-Backspace": ESC + b"\x7f",
     # sequences no key is assigned to (an unsupported function key, a focus report, an SS3 letter): read whole, then ignored
     "Unk1": ESC + b"[9~", "Unk2": ESC + b"Oz", "Unk3": ESC + b"[I", "Unk4": ESC + b"[29~",
+    # cursor position reports (late or unsolicited answers to ESC[6n) of every digit shape: read whole, nothing after them eaten
+    "Cpr1": ESC + b"[1;1R", "Cpr2": ESC + b"[12;3R", "Cpr3": ESC + b"[12;34R", "Cpr4": ESC + b"[5;10R", "Cpr5": ESC + b"[123;4R",
 }
 
 
@@ -327,7 +329,8 @@ def gen_emacs(rng, n, history=False, extra=()):
         elif extra:
             ks.append(rng.choice(extra))
         else:
-            ks.append(rng.choice(["C-l", "F5", "Insert", "PageUp", "S-Up", "C-g", "Unk1", "Unk2", "Unk3", "Unk4"]))
+            ks.append(rng.choice(["C-l", "F5", "Insert", "PageUp", "S-Up", "C-g", "Unk1", "Unk2", "Unk3", "Unk4",
+                                  "Cpr1", "Cpr2", "Cpr3", "Cpr4", "Cpr5"]))
     return ks
 
 
@@ -340,7 +343,8 @@ def gen_vi(rng, n, history=False):
             if r < 0.55:
                 ks.append(rng.choice(TEXT))
             elif r < 0.63:
-                ks.append(rng.choice(["Backspace", "C-h", "C-w", "C-u", "C-k", "Left", "Right", "Home", "End", "C-t", "C-y"]))
+                ks.append(rng.choice(["Backspace", "C-h", "C-w", "C-u", "C-k", "Left", "Right", "Home", "End", "C-t", "C-y",
+                                      "C-_", "C-_", "Cpr2", "Unk1"]))
             elif r < 0.66 and history:
                 ks.append(rng.choice(["Up", "Down"]))
             elif r < 0.70:
@@ -380,7 +384,7 @@ def gen_vi(rng, n, history=False):
             elif r < 0.95 and history:
                 ks += cnt + [rng.choice(["j", "k", "+", "-", "C-p", "C-n"])]
             else:
-                ks.append(rng.choice(["Esc", "C-l", "F5", "~", "Delete", "C-u", "C-w", "C-k"]))
+                ks.append(rng.choice(["Esc", "C-l", "F5", "~", "Delete", "C-u", "C-w", "C-k", "Cpr1", "Cpr2", "Cpr5", "Unk3"]))
     return ks
 
 
@@ -435,6 +439,17 @@ def c01_cases(tier, seed):
             t = t.replace(" ", "\n", 2)
         k = rng.randint(0, len(t))
         cases.append(Case(gen_vi_ops(rng, t), mode="vi", initial=(t[:k], t[k:]), timeout=0, prompt="> ", meta={}))
+    # every operator with every character search (to / till, forward / backward), on characters that do occur, then put / undo
+    for op in ("d", "y", "c"):
+        for cs in ("f", "t", "F", "T"):
+            t = rng.choice(["ab cd,ef gh", "x\u00e9y \u65e5z a,b", "one two, three", "a\u0301b c\u0301d e"])
+            k = rng.randint(2, len(t) - 2)
+            target = rng.choice([c for c in (t[k:] if cs in "ft" else t[:k]) if c != "\n"] or ["a"])
+            keys = ["Esc"] + ([rng.choice("23")] if rng.random() < 0.3 else []) + [op, cs, target]
+            if op == "c":
+                keys += ["Q", "Esc"]
+            keys += [rng.choice(["p", "P"]), "u", ".", "Enter"]
+            cases.append(Case(keys, mode="vi", initial=(t[:k], t[k:]), timeout=0, prompt="> ", meta={}))
     # words whose case mappings change the UTF-8 length (dotless i, ligature fi, I with dot, Kelvin sign, sharp s, n with
     # apostrophe, dz digraph) under M-u / M-l / M-c with counts, followed by an insertion at the resulting cursor
     cw = ["\u0131x", "\ufb01ne", "\u0130st", "\u212aelvin", "stra\u00dfe", "\u0149a", "\u01c6b", "ab", "X\u0131", "i\u0307"]
@@ -821,7 +836,10 @@ def c05_cases(tier, seed):
                 if mode == "emacs":
                     keys += rng.choice([["C-_"], ["C-_"], ["C-x", "C-u"], ["M-2", "C-_"], ["C-_", "C-_"]])
                 else:
-                    keys += rng.choice([["Esc", "u"], ["Esc", "u", "u"], ["Esc", "2", "u"], ["Esc", "u", "i"]])
+                    keys += rng.choice([["Esc", "u"], ["Esc", "u", "u"], ["Esc", "2", "u"], ["Esc", "u", "i"],
+                                        # undo asked for INSIDE an insert session opened from command mode (its group still open)
+                                        ["Esc", "a", "x", "C-_"], ["Esc", "i", "y", "C-_", "C-_"], ["Esc", "A", "z", "C-_", "C-_", "C-_"],
+                                        ["C-_"], ["C-_", "C-_"]])
         keys += ["C-_"] * rng.randint(0, 6) if mode == "emacs" else ["Esc"] + ["u"] * rng.randint(0, 6)
         keys.append("Enter")
         cases.append(Case(keys, mode=mode, history=hist, cands=cands, initial=mk_initial(rng, 0.3),
